@@ -132,7 +132,8 @@ class Ctx:
 def _rem_form(st, e: Form, m: int) -> Form:
     lo, hi = st.num.rng(e)
     from .lin import tdiv
-    q = SYMTAB.div(e, m, tdiv(lo, m), tdiv(hi, m))
+    q = SYMTAB.div(e, m, -(1 << 130), 1 << 130)     # shared symbol: path-independent static range
+    st.num.note_div(q)
     return e.sub(Form.sym(q, m))
 
 
@@ -685,6 +686,36 @@ def _r(c, st, x, k):
     return c.I.int_binop(st, 'Rem', VInt(x, 'i64'), VInt(F(k), 'i64'), 'i64')
 
 
+def _second_accessor(c, prop, name, scale_unit):
+    x = c.argc(0)
+    for (st, ret) in c.exits:
+        v = ret.variants.get(SOME) if isinstance(ret, VAdt) else None
+        ok = v is not None and len(ret.variants) == 1 and isinstance(v[0], VFloat)
+        why = f"{ret!r}"
+        if ok:
+            ex = v[0].expr
+            ok = bool(ex) and ex[0] == 'div' and ex[1] is not None and ex[1][0] == 'i2f' and ex[2] is not None and ex[2][0] == 'i2f' and ex[2][1] == F(S_US)
+            if ok:
+                num = ex[1][1]
+                a, b = st.num.rng2(num)
+                # the numerator is the microseconds within the minute (same remainder class, magnitude below one minute)
+                ok = st.num.residue(num.sub(x), MI_US) == 0 and -MI_US < a and b < MI_US
+                why = f"numerator {num!r} in [{a}, {b}]"
+            else:
+                why = f"value {ex}"
+        c.rec(prop, f"{name}: second = float(count % minute) / 1e6 (exact integer remainder before the conversion)", ok, why)
+
+
+@contract(r'^<time::Time as DateTime>::second$')
+def _(c):
+    _second_accessor(c, 'C07', 'Time::second', MI_US)
+
+
+@contract(r'^<interval::IntervalDT as DateTime>::second$')
+def _(c):
+    _second_accessor(c, 'C13', 'IntervalDT::second', MI_US)
+
+
 @contract(r'^<interval::IntervalYM as DateTime>::year$')
 def _(c):
     _div_accessor(c, 'C13', 'IntervalYM year accessor = m / 12', lambda c, st, x: _q(c, st, x, 12))
@@ -814,6 +845,50 @@ def _month_shift(c, name, sign, ts):
         else:
             c.rec('C09', f"{name}: midnight", not rest.terms and rest.c == 0, f"extra {rest!r}")
     c.rec('C09', f"{name}: some path returns Ok", n_ok > 0)
+    # failures: exactly when the target month lies outside years 1..=9999 or has no such day
+    base = c.argc(0)
+    dform = base if not ts or c.key.startswith('date::Date::') else None
+    for (st, ret) in c.exits:
+        kind, v = c.split_result(ret)
+        if kind != 'err':
+            continue
+        ysym = msym = dsym = None
+        for s_ in range(len(SYMTAB.syms)):
+            pass
+        parts = None
+        for (tag, info) in ():
+            pass
+        # locate the decomposition symbols of self that are live in this state (year/month/day of some julian form)
+        cands = [(key_, sid) for key_, sid in SYMTAB.cons.items() if key_[0] == 'op' and key_[1] == 'year']
+        found = None
+        for key_, ys in cands:
+            jkey = key_[2]
+            ms = SYMTAB.cons.get(('op', 'month', jkey))
+            ds = SYMTAB.cons.get(('op', 'day', jkey))
+            if ms is None or ds is None:
+                continue
+            # the one whose julian form mentions the root's own count symbol
+            jf = Form(jkey[0], jkey[1])
+            mine = any(base.coeff(s2) for s2, _ in jf.terms) or any(SYMTAB.syms[s2].kind == 'div' and any(base.coeff(s3) for s3, _ in SYMTAB.syms[s2].data[0].terms) for s2, _ in jf.terms)
+            # the decomposition taken on *this* path: its day symbol occurs in the K2 facts of the state
+            live = any(F_.coeff(ds) for F_ in st.num.facts)
+            if mine and live:
+                found = (ys, ms, ds)
+        if found is None:
+            c.rec('C09', f"{name}: error exits refer to the decomposition of self", False, f"{v}")
+            continue
+        ys, ms, ds = found
+        T = Form.sym(ys, 12).add(Form.sym(ms)).addc(-1).add(k.scale(sign))
+        a, b = st.num.rng2(T)
+        if a > b:
+            continue
+        if v == 'DateOutOfRange':
+            c.rec('C09', f"{name}: fails with a range error only when the target month is outside years 1..=9999", b < 12 or a > 119999,
+                  f"DateOutOfRange although 12*y + (m-1) {'+' if sign > 0 else '-'} k is in [{a}, {b}] (years 1..=9999 are [12, 119999])")
+        elif v in ('InvalidDate', 'InvalidDay'):
+            dl, dh = st.num.rng2(Form.sym(ds))
+            c.rec('C09', f"{name}: fails with a date error only for days 29..31 of an in-range target month", a >= 12 and b <= 119999 and dl >= 29,
+                  f"{v} for target month index in [{a}, {b}], day in [{dl}, {dh}]")
 
 
 @contract(r'^date::Date::add_interval_ym$')
